@@ -69,6 +69,13 @@ reg('C02', 'Hypothesis generated operator programs / derivation trees, different
     'with the same Python expression evaluated eagerly on the loaded array; parents and siblings '
     'are re-read after every derivation to expose aliasing.', TRUST + ' mtscomp as codec.')
 
+reg('C03', 'Hypothesis generated recordings/spikes/channel rows, all routes vs double-loop window oracle',
+    'Generated recordings in every backend and chunking, spike vectors biased to recording, file '
+    'and chunk boundaries (signed and unsigned), window lengths beyond the recording, channel rows '
+    'with -1, unit factors and store queries are pushed through direct extraction, chunked export '
+    '(np.load of the file) and store lookup; each result is compared exactly with the zero-padded '
+    'window defined in the statement.', TRUST + ' mtscomp as codec.')
+
 
 def main():
     props = [json.loads(l) for l in (HERE / 'properties.jsonl').read_text().splitlines() if l.strip()]
